@@ -243,6 +243,60 @@ def beads_part(chk):
                 chk.violation('C10/beads-row-differs-from-hand-composition/' + d, {'instrument': inst, 'beads_row': rid}, prog, d)
 
 
+def calibration_calls_part(chk):
+    """TRACE of the calibration step of every beads row: the arguments process_beads_table hands to get_transform_fxn
+    are the ROW'S OWN (ExcelUI.tla BeadsProgram, last step): its gated sample, its MEF values and channels, its clustering
+    channels - whatever the rows before it asked for."""
+    if 'Call("get_transform_fxn", <<"own-mef-values", "own-mef-channels", "own-clustering-channels">>)' not in \
+            open(os.path.join(tlc.SPEC_DIR, 'ExcelUI.tla')).read():
+        raise tlc.MachineryError('BeadsProgram of ExcelUI.tla lacks the calibration call')
+    for inst in ('A', 'B'):
+        sp = xw.INSTR[inst]
+        fl = sp['fl']
+        rows = []
+        clusters = [fl, fl[:1], fl + sp['extra'], fl[1:], fl + sp['extra'] + sp['sc'][1:]]
+        for k, cl in enumerate(clusters):
+            t = W.beads_table('none', inst, rows=('BOK',)).rename(index={'BOK': 'R%d' % k})
+            t.loc['R%d' % k, 'Clustering Channels'] = ', '.join(cl)
+            if k == 3:       # a row calibrating only the second channel
+                t.loc['R%d' % k, fl[0] + ' MEF Values'] = None
+            rows.append(t)
+        bt = pd.concat(rows)
+        bt.index.name = 'ID'
+        calls = []
+        real = FlowCal.mef.get_transform_fxn
+
+        def recorder(data_beads, mef_values, mef_channels, **kw):
+            calls.append({'n': int(data_beads.shape[0]), 'mef_values': [[None if v != v else float(v) for v in row] for row in np.array(mef_values, dtype=float)],
+                          'mef_channels': list(mef_channels), 'clustering_channels': list(kw.get('clustering_channels') or [])})
+            return real(data_beads, mef_values, mef_channels, **kw)
+        FlowCal.mef.get_transform_fxn = recorder
+        try:
+            np.random.seed(3)
+            with warnings.catch_warnings():
+                warnings.simplefilter('ignore')
+                bs, fx = FlowCal.excel_ui.process_beads_table(bt, W.instruments, base_dir=W.dir, verbose=False, plot=False)
+        finally:
+            FlowCal.mef.get_transform_fxn = real
+        want = []
+        for k, cl in enumerate(clusters):
+            chs = [c for c in fl if not (k == 3 and c == fl[0])]
+            mv = [[None if str(v).strip() == 'None' else float(v) for v in str(bt.loc['R%d' % k, c + ' MEF Values']).split(',')] for c in chs]
+            want.append({'n': int(bs['R%d' % k].shape[0]), 'mef_values': mv, 'mef_channels': chs, 'clustering_channels': list(cl)})
+        chk.case(('calibration-calls', inst), nontrivial=True, sample={'calibration_calls': calls, 'rows_own_arguments': want} if inst == 'A' else None)
+        chk.traces += 1
+        if len(calls) != len(want):
+            chk.violation('C10/beads/calibration-call-count', {'instrument': inst}, want, calls, direction='trace')
+            continue
+        for k, (c, w) in enumerate(zip(calls, want)):
+            for field in ('clustering_channels', 'mef_channels', 'mef_values', 'n'):
+                if c[field] != w[field]:
+                    chk.violation('C10/beads/calibrated-with-other-%s' % field.replace('_', '-'), {'instrument': inst, 'beads_row': k,
+                                                                                                   'rows': [list(x) for x in clusters]},
+                                  w, c, direction='trace')
+                    break
+
+
 def trace_part(chk):
     import re
     res = tlc.require_ok(tlc.run_tlc('MC_ExcelUI', 'SPECIFICATION Spec\nCONSTANTS RowKinds <- AllRows\nMaxRows = 1\nINVARIANT Isolation\n',
@@ -329,6 +383,7 @@ def main(chk, replay=None):
         for lab, r in o['labels']:
             chk.violation('C10/' + lab, {'table': rows, 'row': r, 'instrument': inst, 'fractions': fracs}, [e['calls'] for e in exp], o['obs'])
     beads_part(chk)
+    calibration_calls_part(chk)
     trace_part(chk)
     # negative control: a different trim count must be noticed by the comparison
     rows, exp = [t for t in tables if len(t[0]) == 1 and t[0][0]['file'] == 'ok-int'][0]
